@@ -4,6 +4,7 @@ import "pgregory.net/rapid"
 
 func Gen(t *rapid.T) *Case {
 	c := &Case{PanicHandler: rapid.IntRange(0, 3).Draw(t, "ph") != 0, Publishes: rapid.IntRange(1, 5).Draw(t, "pubs")}
+	c.NilPH = rapid.SampledFrom([]string{"", "", "option", "setter", "unset"}).Draw(t, "nilPH")
 	if c.PanicHandler {
 		c.PHDelayUs = rapid.SampledFrom([]int{0, 0, 100, 1000, 3000}).Draw(t, "phdelay")
 	}
